@@ -41,6 +41,9 @@ type Config struct {
 	AsRoot      bool     // subprocess engine only: do not drop privileges
 	HookSock    string   // subprocess engine only: VERIF_HOOK_SOCK
 	ExtraArgs   []string // subprocess engine only: extra global flags
+	Backend     string   // subprocess engine only: "" = posix, "s3" = the S3 proxy backend
+	BackendArgs []string // subprocess engine only: arguments of the non-posix backend
+	TLSHealth   bool     // subprocess engine only: the gateway speaks TLS (health probe and transport use TLS, no verification)
 }
 
 var DefaultRoot = s3c.Creds{Access: "rootaccess", Secret: "rootsecret0123456789"}
